@@ -15,8 +15,11 @@ from mutagen._util import bchr
 from ._frames import TCON, TRCK, COMM, TDRC, TYER, TALB, TPE1, TIT2
 
 
-def find_id3v1(fileobj, v2_version=4, known_frames=None):
+def find_id3v1(fileobj, v2_version=4, known_frames=None, start=0):
     """Returns a tuple of (id3tag, offset_to_end) or (None, 0)
+
+    start: the tag can't begin before this file offset (e.g. the end of
+        an ID3v2 tag at the start of the file)
 
     offset mainly because we used to write too short tags in some cases and
     we need the offset to delete them.
@@ -47,6 +50,7 @@ def find_id3v1(fileobj, v2_version=4, known_frames=None):
             raise
 
     data = fileobj.read(128 + extra_read)
+    data_offset = fileobj.tell() - len(data)
     fileobj.seek(old_pos, 0)
 
     # If the file ends with an APEv2 footer there is no ID3v1 tag behind it,
@@ -68,6 +72,9 @@ def find_id3v1(fileobj, v2_version=4, known_frames=None):
         else:
             if idx == ape_idx + extra_read:
                 return (None, 0)
+
+        if data_offset + idx < start:
+            return (None, 0)
 
         tag = ParseID3v1(data[idx:], v2_version, known_frames)
         if tag is None:
